@@ -156,6 +156,20 @@ fn rs_files(dir: &Path, out: &mut Vec<PathBuf>) {
     }
 }
 
+/// The checksum verify() computes for these bytes, taken from its own ChecksumMismatch error (None when the
+/// bytes do not open, verify cleanly, or panic).
+fn checksum_the_reader_expects(b: &[u8]) -> Option<u32> {
+    let b = b.to_vec();
+    panic::catch_unwind(panic::AssertUnwindSafe(|| match fst::raw::Fst::new(b) {
+        Ok(f) => match f.verify() {
+            Err(fst::Error::Fst(fst::raw::Error::ChecksumMismatch { got, .. })) => Some(got),
+            _ => None,
+        },
+        Err(_) => None,
+    }))
+    .unwrap_or(None)
+}
+
 impl Prop for P {
     fn generate(&self, tier: Tier, rng: &mut Rng, stats: &mut Stats) -> Vec<String> {
         let mut cases = vec![];
@@ -200,6 +214,17 @@ impl Prop for P {
                             put64(&mut b, 0, v);
                             cases.push(case_of(&b, stats));
                             stats.bump("boundary_header_footer");
+                            // the same bogus footer under a CORRECT checksum, so that verify() gets past its
+                            // comparison: the implementation names the right value in its ChecksumMismatch error
+                            if v == 3 && l >= 36 {
+                                if let Some(good) = checksum_the_reader_expects(&b) {
+                                    let mut sealed = b.clone();
+                                    let n4 = sealed.len() - 4;
+                                    sealed[n4..].copy_from_slice(&good.to_le_bytes());
+                                    cases.push(case_of(&sealed, stats));
+                                    stats.bump("boundary_header_footer_with_correct_checksum");
+                                }
+                            }
                         }
                     }
                 }
